@@ -19,6 +19,8 @@ instance : FromJson Rat where
     | _, _ => throw "rational: [num, den] expected"
 
 deriving instance FromJson, ToJson for Atom
+deriving instance FromJson, ToJson for DivKind
+deriving instance FromJson, ToJson for Leaf
 deriving instance FromJson, ToJson for Val
 deriving instance FromJson, ToJson for CellSt
 deriving instance FromJson, ToJson for SurfSt
